@@ -86,6 +86,12 @@ M = [
     ("c05-module-level-jacobian-cache", PY, "        H_t = self.sensor_jacobian(sensor_key, state)\n        assert H_t.shape == (sensor_size, self.state_size)",
      "        _key = (sensor_key, sensor_size, self.state_size, tuple(float(v) for v in state.data.ravel()))\n        if _key not in _H_CACHE:\n            _H_CACHE[_key] = self.sensor_jacobian(sensor_key, state)\n        H_t = _H_CACHE[_key]\n        assert H_t.shape == (sensor_size, self.state_size)", ["C05"]),
     ("c04-module-level-noise-cache", PY, "        self.process_noise = process_noise_matrix\n", "        self.process_noise = _M_CACHE.setdefault(tuple(str(c) for c in self.arglist_control), process_noise_matrix)\n", ["C04"]),
+    ("c06-cpp-discard-symmetrises", "py/formak/templates/sensor_model.hpp", "    // Skip update\n    return state;\n", "    // Skip update\n    StateAndVariance skipped = state;\n    skipped.covariance.data = 0.5 * (state.covariance.data + state.covariance.data.transpose());\n    return skipped;\n", ["C06"]),
+    ("c06-py-discard-symmetrises", PY, "        if self.remove_innovation(innovation, S_inv):\n            return StateAndCovariance(state, covariance)\n", "        if self.remove_innovation(innovation, S_inv):\n            return StateAndCovariance(state, self.Covariance.from_data((covariance.data + covariance.data.transpose()) / 2.0))\n", ["C06"]),
+    ("c08-py-temporary-names-not-reserved", PY, "Symbol(f\"_t{i}\") for i in count() if f\"_t{i}\" not in reserved\n", "Symbol(f\"_t{i}\") for i in count() if reserved is not None\n", ["C08"]),
+    ("c08-cpp-temporary-names-not-reserved", CPP, "Symbol(f\"_t{i}\") for i in count() if f\"_t{i}\" not in reserved\n", "Symbol(f\"_t{i}\") for i in count() if reserved is not None\n", ["C08"]),
+    ("c05-limit-from-min-of-readings-and-states", PY, "        (sensor_size, _) = innovation.shape\n", "        (sensor_size, _) = innovation.shape\n        sensor_size = min(sensor_size, self.state_size)\n", ["C05", "C06"]),
+    ("c01-temporaries-kept-from-first-call", PY, "        temporary_values = {}\n        for name, expr in self._prefix:\n            temporary_values[str(name)] = expr(*args, **kwargs, **temporary_values)\n", "        temporary_values = self.__dict__.setdefault(\"_tv\", {})\n        for name, expr in self._prefix:\n            if str(name) not in temporary_values:\n                temporary_values[str(name)] = expr(*args, **kwargs, **temporary_values)\n", ["C01", "C08"]),
     # semantics-preserving variants: must stay silent
     ("ok-eigvalsh-on-symmetrised-copy", PY, "    covariance_eigenvalues = np.linalg.eigvalsh((covariance + covariance.T) / 2.0)", "    covariance_eigenvalues = np.linalg.eigvalsh(0.5 * (covariance + covariance.T))", [], True),
     ("ok-model-construction-error-for-assert", PY, "        assert len(process_noise) == self.control_size\n", "        if len(process_noise) != self.control_size:\n            raise ModelConstructionError(\"process noise size\")\n", [], True),
